@@ -50,6 +50,12 @@ pub enum Op {
     /// old-stream injector keeps pushing (only meaningful after a restart)
     PushOld { sel: u8, text: u16 },
     Sleep { ms: u8 },
+    /// tick(10) while a helper thread releases the held run after `delay_ms`: the run finishes
+    /// during the tick's time-out
+    TickWhileReleasing { delay_ms: u8 },
+    /// a free-running injector thread: pushes / extends n items with short pauses, concurrently with
+    /// the following operations (joined at the end)
+    BgInjector { inj: u8, n: u8, pause: u8, text: u16 },
 }
 
 #[derive(Clone, Debug, Serialize, Deserialize, Hash)]
@@ -217,6 +223,10 @@ pub struct Machine<'h> {
     had_append: bool,
     saw_inflight_then_published: bool,
     notify_count: Arc<std::sync::atomic::AtomicU64>,
+    /// upper bound for index scans: number of items ever created (any stream)
+    total_created: Arc<std::sync::atomic::AtomicU32>,
+    /// free-running injector threads (stream, handle)
+    bg: Vec<(u32, std::thread::JoinHandle<()>)>,
 }
 
 fn fill_cols(texts: &[String], cols: &mut [Utf32String]) {
@@ -259,6 +269,8 @@ impl<'h> Machine<'h> {
             had_append: false,
             saw_inflight_then_published: false,
             notify_count,
+            total_created: Arc::new(std::sync::atomic::AtomicU32::new(0)),
+            bg: vec![],
         };
         let inj = m.nuc.as_ref().unwrap().injector();
         m.handles.push(Handle { inj, stream: 0 });
@@ -270,6 +282,7 @@ impl<'h> Machine<'h> {
     }
 
     fn new_item(&mut self, stream: u32, text: u16) -> (Tracked, Vec<String>) {
+        self.total_created.fetch_add(1, std::sync::atomic::Ordering::SeqCst);
         let t = Tracked::new(stream);
         let texts: Vec<String> = (0..self.cols()).map(|c| item_text(text, c)).collect();
         self.items.lock().insert(t.id, ItemInfo { stream, texts: texts.clone(), returned: false });
@@ -364,7 +377,7 @@ impl<'h> Machine<'h> {
             }
             // processed-set clause: the matches are exactly the matching items among a set of
             // processed items of size item_count
-            let bound = self.reserved.values().copied().max().unwrap_or(0);
+            let bound = self.total_created.load(std::sync::atomic::Ordering::SeqCst) + 64;
             let mut published = 0u32;
             let mut nonmatching = 0u32;
             for idx in 0..bound {
@@ -391,10 +404,13 @@ impl<'h> Machine<'h> {
 
     /// expected number of live injectors of the current stream
     fn check_injectors(&mut self, when: &str) {
-        let want = self.handles.iter().filter(|h| h.stream == self.stream).count() + self.writers.iter().filter(|w| w.handle.is_some() && w.stream == self.stream).count();
+        let base = self.handles.iter().filter(|h| h.stream == self.stream).count() + self.writers.iter().filter(|w| w.handle.is_some() && w.stream == self.stream).count();
+        // a free-running injector thread owns a clone until it finishes (unknown to the driver)
+        let bg_max = self.bg.iter().filter(|(s, h)| *s == self.stream && !h.is_finished()).count();
+        let bg_all = self.bg.iter().filter(|(s, _)| *s == self.stream).count();
         let got = self.nuc.as_ref().unwrap().active_injectors();
-        if got != want {
-            self.rep.find("C20", "active-injectors", format!("{when}: active_injectors() = {got}, live injector handles of the current stream = {want}"));
+        if got < base || got > base + bg_all.max(bg_max) {
+            self.rep.find("C20", "active-injectors", format!("{when}: active_injectors() = {got}, live injector handles of the current stream = {base} (+ up to {bg_all} free-running injector threads)"));
         }
     }
 
@@ -788,8 +804,75 @@ impl<'h> Machine<'h> {
                 }
                 Op::ReleaseScore => gate::release_score(),
                 Op::Sleep { ms } => std::thread::sleep(Duration::from_millis((*ms % 4) as u64)),
+                Op::BgInjector { inj, n, pause, text } => {
+                    if self.bg.len() < 3 {
+                        if let Some(hi) = self.pick_handle(*inj, false) {
+                            let stream = self.handles[hi].stream;
+                            let injc = self.handles[hi].inj.clone();
+                            let n = (*n as usize % 60) + 1;
+                            let mut payloads = vec![];
+                            for k in 0..n {
+                                payloads.push(self.new_item(stream, text.wrapping_add(k as u16 * 13)));
+                            }
+                            *self.reserved.entry(stream).or_insert(0) += n as u32;
+                            let items = self.items.clone();
+                            let pause = *pause as u64 % 8;
+                            let h = std::thread::spawn(move || {
+                                let mut it = payloads.into_iter();
+                                let mut k = 0usize;
+                                while let Some((t, texts)) = it.next() {
+                                    let id = t.id;
+                                    if k % 5 == 4 {
+                                        // a small batch through extend
+                                        let mut batch = vec![(t, texts)];
+                                        for _ in 0..3 {
+                                            if let Some(x) = it.next() {
+                                                batch.push(x);
+                                            }
+                                        }
+                                        let ids: Vec<u64> = batch.iter().map(|b| b.0.id).collect();
+                                        let tx: HashMap<u64, Vec<String>> = batch.iter().map(|b| (b.0.id, b.1.clone())).collect();
+                                        let v: Vec<Tracked> = batch.into_iter().map(|b| b.0).collect();
+                                        injc.extend(v.into_iter(), |t, cols| fill_cols(&tx[&t.id], cols));
+                                        let mut m = items.lock();
+                                        for id in ids {
+                                            if let Some(i) = m.get_mut(&id) {
+                                                i.returned = true;
+                                            }
+                                        }
+                                    } else {
+                                        injc.push(t, |_, cols| fill_cols(&texts, cols));
+                                        if let Some(i) = items.lock().get_mut(&id) {
+                                            i.returned = true;
+                                        }
+                                    }
+                                    k += 1;
+                                    if pause > 0 {
+                                        std::thread::sleep(Duration::from_micros(pause * 30));
+                                    }
+                                }
+                            });
+                            self.bg.push((stream, h));
+                            self.rep.label("free-running-injector-thread");
+                        }
+                    }
+                }
+                Op::TickWhileReleasing { delay_ms } => {
+                    let parked = gate::ctl().st.lock().run_parked != 0;
+                    let d = (*delay_ms % 6) as u64;
+                    let helper = std::thread::spawn(move || {
+                        std::thread::sleep(Duration::from_millis(d));
+                        gate::release_run();
+                        gate::release_score();
+                    });
+                    if parked {
+                        self.rep.label("run-finishes-during-tick-timeout");
+                    }
+                    self.do_tick(10, &when);
+                    let _ = helper.join();
+                }
             }
-            if !matches!(op, Op::Tick { .. } | Op::Restart { .. }) {
+            if !matches!(op, Op::Tick { .. } | Op::Restart { .. } | Op::TickWhileReleasing { .. } | Op::BgInjector { .. }) {
                 self.check_injectors(&when);
             }
         }
@@ -804,6 +887,9 @@ impl<'h> Machine<'h> {
             self.release_writer(k);
         }
         self.reap_writers();
+        for (_, h) in self.bg.drain(..) {
+            let _ = h.join();
+        }
         if gate::fatal().is_none() && self.rep.inconclusive.is_none() {
             if self.h.quiesce {
                 self.quiesce();
@@ -870,7 +956,7 @@ impl<'h> Machine<'h> {
             fresh.reparse(c, &self.texts[c], case_of(cm), norm_of(nm), false);
         }
         let mut matcher = Matcher::new(self.cfg.clone());
-        let bound = self.reserved.get(&cur).copied().unwrap_or(0);
+        let bound = self.total_created.load(std::sync::atomic::Ordering::SeqCst) + 64;
         let mut all = 0u32;
         let mut want: Vec<(u32, u32, u32)> = vec![];
         for idx in 0..bound {
@@ -958,6 +1044,8 @@ pub fn op_strategy(bias: Bias) -> BoxedStrategy<Op> {
         2 => Just(Op::ReleaseScore),
         if bias == Bias::Restarts { 6 } else { 1 } => (any::<u8>(), any::<u16>()).prop_map(|(sel, text)| Op::PushOld { sel, text }),
         1 => (0u8..4).prop_map(|ms| Op::Sleep { ms }),
+        5 => (0u8..6).prop_map(|delay_ms| Op::TickWhileReleasing { delay_ms }),
+        4 => (any::<u8>(), any::<u8>(), 0u8..8, any::<u16>()).prop_map(|(inj, n, pause, text)| Op::BgInjector { inj, n, pause, text }),
     ]
     .boxed()
 }
